@@ -1,5 +1,6 @@
 import Tau.Proofs.Tokeniser
 import Tau.Pratt
+import Tau.Proofs.PrattPP
 /-
   C05 — Condition grammar: fixed precedence, associativity and parentheses.
 -/
@@ -60,5 +61,43 @@ example :
     tokenise "allow or offline".toList = .ok [.ident "allow".toList, .op .or, .ident "offline".toList] ∧
     tokenise "not notable".toList = .ok [.miscNot, .ident "notable".toList] := by
   refine ⟨by rfl, by rfl, by rfl, by rfl⟩
+
+end Tau.C05
+
+namespace Tau.C05
+open Tau
+
+/-- **The grammar, as a round trip.** For every condition AST over identifiers, `all()`, `of()`,
+    `not`, `and`, `or` — printed with exactly the parentheses the binding powers require and with
+    any number of redundant parentheses the author added (`Cond.par`) — the parser returns exactly
+    the AST's tree. This pins: `not` applies to the single operand that follows; `or` binds tighter
+    than `and`; equal operators associate to the left; parentheses override; redundant parentheses
+    change nothing. -/
+theorem parse_print (c : Cond) : parse c.pp = .ok c.toExpr := parse_pp c
+
+/-- Redundant parentheses around any sub-expression never change the parsed tree. -/
+theorem redundant_parens (c : Cond) : parse (Cond.par c).pp = parse c.pp := by
+  rw [parse_pp, parse_pp]; rfl
+
+/-- The printed forms of the four grammar facts (what the round trip is about). -/
+example :
+    -- `not A or B` is `(not A) or B`
+    (Cond.or (.not (.id ['A'])) (.id ['B'])).pp = [.miscNot, .ident ['A'], .op .or, .ident ['B']] ∧
+    -- `A and B or C` is `A and (B or C)`: `or` binds tighter than `and`
+    (Cond.and (.id ['A']) (.or (.id ['B']) (.id ['C']))).pp
+      = [.ident ['A'], .op .and, .ident ['B'], .op .or, .ident ['C']] ∧
+    -- `(A and B) or C` needs its parentheses
+    (Cond.or (.and (.id ['A']) (.id ['B'])) (.id ['C'])).pp
+      = [.lparen, .ident ['A'], .op .and, .ident ['B'], .rparen, .op .or, .ident ['C']] ∧
+    -- `A and B and C` is `(A and B) and C`: left associative, and the other grouping needs parentheses
+    (Cond.and (.and (.id ['A']) (.id ['B'])) (.id ['C'])).pp
+      = [.ident ['A'], .op .and, .ident ['B'], .op .and, .ident ['C']] ∧
+    (Cond.and (.id ['A']) (.and (.id ['B']) (.id ['C']))).pp
+      = [.ident ['A'], .op .and, .lparen, .ident ['B'], .op .and, .ident ['C'], .rparen] := by
+  refine ⟨rfl, rfl, rfl, rfl, rfl⟩
+
+/-- Fuel never decides a successful parse: more fuel gives the same tree. -/
+theorem parse_fuel_irrelevant {f f' : Nat} (h : f ≤ f') {ts : List Token} {e : Expr}
+    (hp : parseAll f ts = .ok e) : parseAll f' ts = .ok e := parseAll_mono h hp
 
 end Tau.C05
